@@ -560,3 +560,169 @@ pub fn model_leg(args: &Args) {
     }
     rep.finish(args);
 }
+
+// ---------------------------------------------------------------------------------------------
+// Leg (b): the same model comparison through ShardedActorState (one shard, manual clock), with
+// plain GET/SET served by the generic, fast, pooled or batch entry path: "the clock advances
+// arbitrarily" must hold whichever internal path serves a command.
+
+use crate::c03::{self, Path};
+
+#[derive(Clone, Debug)]
+pub enum SStep {
+    Cmd(Argv, Path),
+    Advance(i64),
+}
+
+fn sstep_json(s: &SStep) -> Value {
+    match s {
+        SStep::Cmd(a, p) => json!({"cmd": a.iter().map(|x| lossy(x)).collect::<Vec<_>>(), "path": format!("{:?}", p)}),
+        SStep::Advance(ms) => json!({"advance_ms": ms}),
+    }
+}
+fn sstep_from(v: &Value) -> SStep {
+    if let Some(c) = v.get("cmd") {
+        let a: Argv = c.as_array().unwrap().iter().map(|x| unlossy(x.as_str().unwrap_or(""))).collect();
+        let p = match v["path"].as_str().unwrap_or("Generic") {
+            "Fast" => Path::Fast,
+            "Pooled" => Path::Pooled,
+            "Batch" => Path::Batch,
+            _ => Path::Generic,
+        };
+        SStep::Cmd(a, p)
+    } else {
+        SStep::Advance(v["advance_ms"].as_i64().unwrap_or(0))
+    }
+}
+
+async fn run_sharded(steps: &[SStep], mut on_cmd: impl FnMut(&Argv, &Path, &Tree)) -> Option<Divergence> {
+    let (st, clock) = c03::new_state(1);
+    let mut m = Model::new(EPOCH_MS);
+    for (i, s) in steps.iter().enumerate() {
+        match s {
+            SStep::Advance(ms) => {
+                clock.0.fetch_add(*ms as u64, std::sync::atomic::Ordering::SeqCst);
+                m.advance(*ms);
+            }
+            SStep::Cmd(a, path) => {
+                let exp = match m.exec(a) {
+                    Some(e) => e,
+                    None => continue,
+                };
+                let why = m.why;
+                let sh = gen::shape(a);
+                let got = c03::run_cmd(&st, a, path).await;
+                on_cmd(a, path, &got);
+                if let Err(r) = satisfies(&exp, &got, &mut m, a) {
+                    let head = if why.is_empty() { sh.clone() } else { format!("{}|why={}", sh.split('+').next().unwrap_or(""), why) };
+                    // through the generic path this is the executor's own behaviour: same
+                    // signature as leg (a); the other paths get their own class
+                    let signature = if *path == Path::Generic {
+                        format!("C01|{}|reply|exp={}|got={}|{}", head, exp_kind(&exp), kind(&got), r)
+                    } else {
+                        format!("C01|sharded|{}|path={:?}|reply|exp={}|got={}|{}", head, path, exp_kind(&exp), kind(&got), r)
+                    };
+                    return Some(Divergence {
+                        signature,
+                        detail: format!("step {}: {:?} via {:?} -> server {:?}, model expects {:?}", i, a.iter().map(|x| lossy(x)).collect::<Vec<_>>(), path, got, exp),
+                        at: i,
+                    });
+                }
+                let ms = m.snapshot();
+                let is = c03::snapshot(&st).await;
+                if let Some((facet, detail)) = snap_diff(&ms, &is) {
+                    let signature = if *path == Path::Generic {
+                        format!("C01|{}|keyspace|{}", sh, facet)
+                    } else {
+                        format!("C01|sharded|{}|path={:?}|keyspace|{}", sh, path, facet)
+                    };
+                    return Some(Divergence {
+                        signature,
+                        detail: format!("after step {} {:?} via {:?} (reply {:?}): {}", i, a.iter().map(|x| lossy(x)).collect::<Vec<_>>(), path, got, detail),
+                        at: i,
+                    });
+                }
+            }
+        }
+    }
+    None
+}
+
+pub fn sharded_leg(args: &Args) {
+    let mut rep = Report::new("C01", "sharded");
+    let rt = tokio::runtime::Builder::new_current_thread().enable_all().build().unwrap();
+    if let Some(p) = &args.replay {
+        let w: Value = serde_json::from_str(&std::fs::read_to_string(p).expect("replay")).expect("json");
+        let steps: Vec<SStep> = w["witness"]["ssteps"].as_array().unwrap().iter().map(sstep_from).collect();
+        rep.evaluations += 1;
+        if let Some(d) = rt.block_on(run_sharded(&steps, |_, _, _| {})) {
+            rep.violation(d.signature, d.detail, w["witness"].clone());
+        }
+        rep.finish(args);
+        return;
+    }
+    let mut rng = args.rng(11);
+    let nseq = args.get_u64("sequences", if args.thorough() { 6000 } else { 400 });
+    rt.block_on(async {
+        for s in 0..nseq {
+            let len = rng.gen_range(2..40);
+            // clean arguments only: argument validation is leg (a)'s business; this leg is about
+            // which internal path serves plain GET/SET while time passes
+            let base = gen_sequence_mode(&mut rng, &[Family::Str, Family::Key], len, true);
+            let mut steps: Vec<SStep> = vec![];
+            for st in base {
+                match st {
+                    Step::Advance(ms, _) => steps.push(SStep::Advance(ms)),
+                    Step::Cmd(a) => {
+                        let plain = (a.len() == 2 && a[0].eq_ignore_ascii_case(b"GET")) || (a.len() == 3 && a[0].eq_ignore_ascii_case(b"SET"));
+                        let nm = gen::shape(&a);
+                        if nm.starts_with("RANDOMKEY") {
+                            continue;
+                        }
+                        let path = if plain { [Path::Generic, Path::Fast, Path::Pooled, Path::Batch][rng.gen_range(0..4)].clone() } else { Path::Generic };
+                        steps.push(SStep::Cmd(a, path));
+                        // a read of the same key through a fast path right after a clock advance
+                        if rng.gen_bool(0.25) {
+                            let k = gen::key(&mut rng);
+                            let ms = [1i64, 999, 1000, 1001, 2000, 10_000][rng.gen_range(0..6)];
+                            steps.push(SStep::Advance(ms));
+                            steps.push(SStep::Cmd(vec![b"GET".to_vec(), k], [Path::Fast, Path::Pooled, Path::Batch, Path::Generic][rng.gen_range(0..4)].clone()));
+                        }
+                    }
+                }
+            }
+            rep.evaluations += 1;
+            let mut classes = vec![];
+            let d = run_sharded(&steps, |a, p, got| classes.push((gen::shape(a), format!("{:?}", p), kind(got)))).await;
+            for c in classes {
+                rep.count("ops");
+                rep.distinct(&c);
+            }
+            if let Some(d) = d {
+                if !rep.has_sig(&d.signature) {
+                    // shrink: drop steps while the signature reproduces
+                    let mut cur = steps[..=d.at.min(steps.len() - 1)].to_vec();
+                    let mut i = 0;
+                    while i + 1 < cur.len() {
+                        let mut cand = cur.clone();
+                        cand.remove(i);
+                        if run_sharded(&cand, |_, _, _| {}).await.map(|x| x.signature == d.signature).unwrap_or(false) {
+                            cur = cand;
+                        } else {
+                            i += 1;
+                        }
+                    }
+                    let d2 = run_sharded(&cur, |_, _, _| {}).await.unwrap_or(d);
+                    rep.violation(d2.signature, d2.detail, json!({"ssteps": cur.iter().map(sstep_json).collect::<Vec<_>>()}));
+                } else {
+                    rep.count("violations_raw");
+                }
+                rep.count("diverging_sequences");
+            }
+            if s < 2 {
+                rep.sample(json!({"ssteps": steps.iter().take(10).map(sstep_json).collect::<Vec<_>>()}));
+            }
+        }
+    });
+    rep.finish(args);
+}
